@@ -145,3 +145,22 @@ Proof.
   repeat split; try reflexivity; cbn; auto 12. 
 Qed.
 Print Assumptions C11_lifetime_covers_views_refuted_before_fix.
+
+(* create_memref_struct, dynamic mode: for every run-time allocator honouring the aligned-allocator contract,
+   the descriptor's access pointer (field 1) is the allocator's aligned pointer for this alloc's alignment *)
+Theorem C11_descr_dynamic_aligned : forall (alloc_l1 : Z -> Z -> Z * Z),
+  (forall size al, 0 < al -> fst (alloc_l1 size al) <= snd (alloc_l1 size al) /\ snd (alloc_l1 size al) mod al = 0) ->
+  forall size al n, 0 < al ->
+    let d := descr_dynamic al n in
+    d_call_align d = Some al /\
+    resolve (alloc_l1 size al) (d_ptr d) = Some (fst (alloc_l1 size al)) /\
+    (exists ap, resolve (alloc_l1 size al) (d_aligned d) = Some ap /\ ap mod al = 0 /\ fst (alloc_l1 size al) <= ap) /\
+    d_offset d = 0 /\ d_sizes d = seq 0 n.
+Proof. exact descr_dynamic_aligned. Qed.
+Print Assumptions C11_descr_dynamic_aligned.
+
+Theorem C11_descr_const_fields : forall addr n rt,
+  resolve rt (d_ptr (descr_const addr n)) = Some addr /\ resolve rt (d_aligned (descr_const addr n)) = Some addr /\
+  d_offset (descr_const addr n) = 0 /\ d_sizes (descr_const addr n) = seq 0 n.
+Proof. exact descr_const_fields. Qed.
+Print Assumptions C11_descr_const_fields.
